@@ -139,99 +139,36 @@ theorem prepare_diff (ds : Dataset) (q : QueryFacts) (u : PPath) (us : List PPat
 
 /-! ### the stream -/
 
-theorem consume_all (cs : List Chunk) (h : ∀ c ∈ cs, c.decodes = true) : consume cs = (cs.length, true) := by
-  induction cs with
-  | nil => rfl
-  | cons c cs ih =>
-    have hc := h c (by simp)
-    have := ih (fun d hd => h d (by simp [hd]))
-    simp [consume, hc, this]
-
-theorem consume_ok (cs : List Chunk) (n : Nat) (h : consume cs = (n, true)) :
-    (∀ c ∈ cs, c.decodes = true) ∧ n = cs.length := by
-  induction cs generalizing n with
-  | nil => simp [consume] at h; simp [h]
-  | cons c cs ih =>
-    unfold consume at h
-    by_cases hc : c.decodes = true
-    · simp only [hc, if_true] at h
-      cases hr : consume cs with
-      | mk m ok =>
-        rw [hr] at h
-        simp only [Prod.mk.injEq] at h
-        obtain ⟨hn, hok⟩ := h
-        subst hok
-        obtain ⟨hall, hm⟩ := ih m hr
-        refine ⟨?_, by simp; omega⟩
-        intro d hd
-        rcases List.mem_cons.1 hd with rfl | hd
-        · exact hc
-        · exact hall d hd
-    · simp [hc] at h
-
-theorem consume_le (cs : List Chunk) : (consume cs).1 ≤ cs.length := by
-  induction cs with
-  | nil => simp [consume]
-  | cons c cs ih =>
-    unfold consume
-    by_cases hc : c.decodes = true
-    · simp only [hc, if_true]
-      cases hr : consume cs with
-      | mk m ok => rw [hr] at ih; simp at ih ⊢; omega
-    · simp [hc]
-
-/-- The stream ends without exception exactly on a successful ending with decodable output. -/
+/-- The stream ends without exception exactly on a successful ending; then every chunk was read. -/
 theorem runContainer_ok (o : Outcome) (n : Nat) (h : runContainer o = (n, .ok ())) :
-    o.ending = .success ∧ AllDecode o ∧ n = o.chunks.length := by
+    o.ending = .success ∧ n = o.chunks.length := by
   unfold runContainer at h
-  cases he : o.ending <;> cases ha : o.atCall <;> simp [he, ha, endingErr] at h <;>
-    (cases hc : consume o.chunks with
-     | mk m ok =>
-       rw [hc] at h
-       cases ok <;> simp at h
-       try (obtain ⟨hall, hm⟩ := consume_ok _ _ hc
-            exact ⟨rfl, hall, by omega⟩))
+  cases he : o.ending <;> cases ha : o.atCall <;> simp [he, ha, endingErr] at h <;> exact ⟨rfl, by omega⟩
 
-theorem runContainer_success (o : Outcome) (he : o.ending = .success) (hd : AllDecode o) :
+theorem runContainer_success (o : Outcome) (he : o.ending = .success) :
     runContainer o = (o.chunks.length, .ok ()) := by
   unfold runContainer
-  have hc := consume_all o.chunks hd
-  simp [he, endingErr, hc]
+  simp [he, endingErr]
 
+/-- A failing container always yields its own exception, whatever it printed. -/
 theorem runContainer_failure (o : Outcome) (he : o.ending ≠ .success) :
-    ∃ n e, runContainer o = (n, .error e) ∧ n ≤ o.chunks.length := by
-  cases hr : runContainer o with
-  | mk n r =>
-    cases r with
-    | error e =>
-      refine ⟨n, e, rfl, ?_⟩
-      have hle := consume_le o.chunks
-      unfold runContainer at hr
-      cases hen : o.ending <;> cases ha : o.atCall <;> simp [hen, ha, endingErr] at hr <;>
-        (try (obtain ⟨rfl, _⟩ := hr; omega)) <;>
-        (cases hc : consume o.chunks with
-         | mk m ok =>
-           rw [hc] at hr hle
-           cases ok <;> simp at hr <;> (obtain ⟨rfl, _⟩ := hr; simpa using hle))
-    | ok u =>
-      cases u
-      exact absurd (runContainer_ok o n hr).1 he
-
-/-- With decodable output the exception is the container's own. -/
-theorem runContainer_failure_class (o : Outcome) (he : o.ending ≠ .success) (hd : AllDecode o) :
-    ∃ n e, runContainer o = (n, .error e) ∧ e.className = o.ending.className := by
+    ∃ n e, runContainer o = (n, .error e) ∧ e.className = o.ending.className ∧ n ≤ o.chunks.length := by
   unfold runContainer
-  have hc := consume_all o.chunks hd
   cases hen : o.ending with
   | success => exact absurd hen he
   | dockerError =>
     cases ha : o.atCall
-    · exact ⟨o.chunks.length, .docker, by simp [endingErr, hc], rfl⟩
-    · exact ⟨0, .docker, by simp [endingErr], rfl⟩
+    · exact ⟨o.chunks.length, .docker, by simp [endingErr], rfl, by omega⟩
+    · exact ⟨0, .docker, by simp [endingErr], rfl, by omega⟩
   | otherError =>
     cases ha : o.atCall
-    · exact ⟨o.chunks.length, .containerOther, by simp [endingErr, hc], rfl⟩
-    · exact ⟨0, .containerOther, by simp [endingErr], rfl⟩
+    · exact ⟨o.chunks.length, .containerOther, by simp [endingErr], rfl, by omega⟩
+    · exact ⟨0, .containerOther, by simp [endingErr], rfl, by omega⟩
+
+theorem runContainer_fst (o : Outcome) :
+    (runContainer o).1 = if o.atCall = true ∧ o.ending ≠ .success then 0 else o.chunks.length := by
+  unfold runContainer
+  cases he : o.ending <;> cases ha : o.atCall <;> simp [endingErr]
 
 /-! ### the exact shape of every execution -/
 
